@@ -7,177 +7,216 @@ package knxnet
 //@ func lemmaC02_ConnReq(v *ConnReq)
 //@   props C02
 //@   exact
+//@   prune
 
 //@ func lemmaC02stable_ConnReq(b []byte)
 //@   props C02
 //@   exact
+//@   prune
 
 //@ func lemmaC02_ConnStateReq(v *ConnStateReq)
 //@   props C02
 //@   exact
+//@   prune
 
 //@ func lemmaC02stable_ConnStateReq(b []byte)
 //@   props C02
 //@   exact
+//@   prune
 
 //@ func lemmaC02_ConnStateRes(v *ConnStateRes)
 //@   props C02
 //@   exact
+//@   prune
 
 //@ func lemmaC02stable_ConnStateRes(b []byte)
 //@   props C02
 //@   exact
+//@   prune
 
 //@ func lemmaC02_DiscReq(v *DiscReq)
 //@   props C02
 //@   exact
+//@   prune
 
 //@ func lemmaC02stable_DiscReq(b []byte)
 //@   props C02
 //@   exact
+//@   prune
 
 //@ func lemmaC02_DiscRes(v *DiscRes)
 //@   props C02
 //@   exact
+//@   prune
 
 //@ func lemmaC02stable_DiscRes(b []byte)
 //@   props C02
 //@   exact
+//@   prune
 
 //@ func lemmaC02_TunnelRes(v *TunnelRes)
 //@   props C02
 //@   exact
+//@   prune
 
 //@ func lemmaC02stable_TunnelRes(b []byte)
 //@   props C02
 //@   exact
+//@   prune
 
 //@ func lemmaC02_SearchReq(v *SearchReq)
 //@   props C02
 //@   exact
+//@   prune
 
 //@ func lemmaC02stable_SearchReq(b []byte)
 //@   props C02
 //@   exact
+//@   prune
 
 //@ func lemmaC02_DescriptionReq(v *DescriptionReq)
 //@   props C02
 //@   exact
+//@   prune
 
 //@ func lemmaC02stable_DescriptionReq(b []byte)
 //@   props C02
 //@   exact
+//@   prune
 
 //@ func lemmaC02_ConnRes(v *ConnRes)
 //@   props C02
 //@   exact
+//@   prune
 
 //@ func lemmaC02_TunnelReq_LDataReq_App(ch, seq uint8, info []byte, c1, c2 uint8, src, dst uint16, numbered bool, tseq uint8, apci uint8, data []byte)
 //@   props C02
 //@   exact
+//@   prune
 //@   timeout 300
 
 //@ func lemmaC02_TunnelReq_LDataReq_Ctl(ch, seq uint8, info []byte, c1, c2 uint8, src, dst uint16, numbered bool, tseq uint8, cmd uint8)
 //@   props C02
 //@   exact
+//@   prune
 //@   timeout 300
 
 //@ func lemmaC02_TunnelReq_LDataCon_App(ch, seq uint8, info []byte, c1, c2 uint8, src, dst uint16, numbered bool, tseq uint8, apci uint8, data []byte)
 //@   props C02
 //@   exact
+//@   prune
 //@   timeout 300
 
 //@ func lemmaC02_TunnelReq_LDataCon_Ctl(ch, seq uint8, info []byte, c1, c2 uint8, src, dst uint16, numbered bool, tseq uint8, cmd uint8)
 //@   props C02
 //@   exact
+//@   prune
 //@   timeout 300
 
 //@ func lemmaC02_TunnelReq_LDataInd_App(ch, seq uint8, info []byte, c1, c2 uint8, src, dst uint16, numbered bool, tseq uint8, apci uint8, data []byte)
 //@   props C02
 //@   exact
+//@   prune
 //@   timeout 300
 
 //@ func lemmaC02_TunnelReq_LDataInd_Ctl(ch, seq uint8, info []byte, c1, c2 uint8, src, dst uint16, numbered bool, tseq uint8, cmd uint8)
 //@   props C02
 //@   exact
+//@   prune
 //@   timeout 300
 
 //@ func lemmaC02_TunnelReq_LRawReq(ch, seq uint8, raw []byte)
 //@   props C02
 //@   exact
+//@   prune
 //@   timeout 120
 
 //@ func lemmaC02_TunnelReq_LRawCon(ch, seq uint8, raw []byte)
 //@   props C02
 //@   exact
+//@   prune
 //@   timeout 120
 
 //@ func lemmaC02_TunnelReq_LRawInd(ch, seq uint8, raw []byte)
 //@   props C02
 //@   exact
+//@   prune
 //@   timeout 120
 
 //@ func lemmaC02_TunnelReq_LBusmonInd(ch, seq uint8, raw []byte)
 //@   props C02
 //@   exact
+//@   prune
 //@   timeout 120
 
 //@ func lemmaC02_TunnelReq_Unsupported(ch, seq uint8, code uint8, raw []byte)
 //@   props C02
 //@   exact
+//@   prune
 //@   timeout 120
 
 //@ func lemmaC02_RoutingInd_LDataReq_App(info []byte, c1, c2 uint8, src, dst uint16, numbered bool, tseq uint8, apci uint8, data []byte)
 //@   props C02
 //@   exact
+//@   prune
 //@   timeout 300
 
 //@ func lemmaC02_RoutingInd_LDataReq_Ctl(info []byte, c1, c2 uint8, src, dst uint16, numbered bool, tseq uint8, cmd uint8)
 //@   props C02
 //@   exact
+//@   prune
 //@   timeout 300
 
 //@ func lemmaC02_RoutingInd_LDataCon_App(info []byte, c1, c2 uint8, src, dst uint16, numbered bool, tseq uint8, apci uint8, data []byte)
 //@   props C02
 //@   exact
+//@   prune
 //@   timeout 300
 
 //@ func lemmaC02_RoutingInd_LDataCon_Ctl(info []byte, c1, c2 uint8, src, dst uint16, numbered bool, tseq uint8, cmd uint8)
 //@   props C02
 //@   exact
+//@   prune
 //@   timeout 300
 
 //@ func lemmaC02_RoutingInd_LDataInd_App(info []byte, c1, c2 uint8, src, dst uint16, numbered bool, tseq uint8, apci uint8, data []byte)
 //@   props C02
 //@   exact
+//@   prune
 //@   timeout 300
 
 //@ func lemmaC02_RoutingInd_LDataInd_Ctl(info []byte, c1, c2 uint8, src, dst uint16, numbered bool, tseq uint8, cmd uint8)
 //@   props C02
 //@   exact
+//@   prune
 //@   timeout 300
 
 //@ func lemmaC02_RoutingInd_LRawReq(raw []byte)
 //@   props C02
 //@   exact
+//@   prune
 //@   timeout 120
 
 //@ func lemmaC02_RoutingInd_LRawCon(raw []byte)
 //@   props C02
 //@   exact
+//@   prune
 //@   timeout 120
 
 //@ func lemmaC02_RoutingInd_LRawInd(raw []byte)
 //@   props C02
 //@   exact
+//@   prune
 //@   timeout 120
 
 //@ func lemmaC02_RoutingInd_LBusmonInd(raw []byte)
 //@   props C02
 //@   exact
+//@   prune
 //@   timeout 120
 
 //@ func lemmaC02_RoutingInd_Unsupported(code uint8, raw []byte)
 //@   props C02
 //@   exact
+//@   prune
 //@   timeout 120
